@@ -161,6 +161,10 @@ def setup_profile():
             try:
                 # required steps must be present and in the correct order
                 preproc.check_order(new_steps)
+                if "compute_tip_position" not in new_steps:
+                    # the fit is performed over the tip position
+                    raise ValueError(
+                        "The step 'compute_tip_position' is required!")
             except ValueError as exc:
                 print("Invalid preprocessing: {}".format(exc))
                 continue
